@@ -2,6 +2,8 @@ import Dbg.Driver.C07
 import Dbg.Driver.C08
 import Dbg.Driver.C10
 import Dbg.Driver.C11
+import Dbg.Driver.C14
+import Dbg.Driver.C15
 /-! `dbgdriver`: one request per line on stdin (`<prop> <op> <args…>\t<implementation answer>`),
     one line per request on stdout (`<model answer>\t<verdict of holdsCxx on the implementation answer>`). -/
 open Drv
@@ -12,6 +14,8 @@ def dispatch (prop : String) (args : List String) (impl : String) : R Ans :=
   | "C08" => C08.handle args impl
   | "C10" => C10.handle args impl
   | "C11" => C11.handle args impl
+  | "C14" => C14.handle args impl
+  | "C15" => C15.handle args impl
   | _ => throw s!"unknown-property:{prop}"
 
 def answer (line : String) : String :=
